@@ -74,7 +74,9 @@ Record Inv (s : st) : Prop := mkInv {
   iF2 : forall t l f had, In (InAcquireP l f had) (tframes s t) -> In f (objs s l);
   iF3 : forall t t' l l' f had had',
         In (InAcquireP l f had) (tframes s t) -> In (InAcquireP l' f had') (tframes s t') -> t = t';
-  iF4 : forall t l f, In (InAcquireA l f) (tframes s t) -> lkind_ (getl s l) = LPlain
+  iF4 : forall t l f, In (InAcquireA l f) (tframes s t) -> lkind_ (getl s l) = LPlain;
+  (* no lock (with an id in range) is recorded twice as held *)
+  iA6 : forall t l, l < length (locks s) -> count_occ Nat.eq_dec (tholding (gett s t)) l <= 1
 }.
 
 Arguments iA1 {s} _.
@@ -98,6 +100,7 @@ Arguments iF1 {s} _.
 Arguments iF2 {s} _.
 Arguments iF3 {s} _.
 Arguments iF4 {s} _.
+Arguments iA6 {s} _.
 
 (* ------------------------------------------------------------ small facts *)
 Lemma no_acq_nil : no_acq [].
@@ -265,6 +268,10 @@ Proof.
   - (* F3 *) intros t t' l l' f had had' H1 H2.
     eapply (iF3 I); eapply chg_frames_in; eauto.
   - (* F4 *) intros t l f Hin. rewrite (chg_kind l H). eapply (iF4 I). eapply chg_frames_in; eauto.
+  - (* A6 *) intros t l Hl. rewrite (c_nlocks H) in Hl.
+    destruct (Nat.lt_ge_cases t (length (tasks s))) as [Ht|Ht].
+    + destruct (c_task H t Ht) as (E & _). rewrite E. apply (iA6 I); auto.
+    + destruct (c_newtask H t Ht) as (E & _). rewrite E. simpl. lia.
 Qed.
 
 Theorem Inv_chg W s s' :
@@ -325,6 +332,7 @@ Theorem Inv_lockstep s s' l t :
               In l (tholding (gett s' t'))) ->
   (is_prio_task s t = false -> tholding (gett s' t) = []) ->
   (forall t', lowner (getl s' l) = Some t' -> t' < length (tasks s)) ->
+  (forall l0, l0 < length (locks s) -> count_occ Nat.eq_dec (tholding (gett s' t)) l0 <= 1) ->
   (lkind_ (getl s l) = LPlain -> arr (lpq (getl s' l)) = []) ->
   qwf (lpq (getl s' l)) ->
   (forall f1 f2, In f1 (objs s' l) -> In f2 (objs s' l) ->
@@ -335,7 +343,7 @@ Theorem Inv_lockstep s s' l t :
   (forall t' f had, In (InAcquireP l f had) (tframes s t') -> In f (objs s' l)) ->
   Inv s -> Inv s'.
 Proof.
-  intros Ef Ee Ec Eh Enl Ent Hlo Hto Hk Hdq LA1 LA2 LA2o LA3 LA4 LA5 LB0 LB1 LC1 LC2 LD LF2 I.
+  intros Ef Ee Ec Eh Enl Ent Hlo Hto Hk Hdq LA1 LA2 LA2o LA3 LA4 LA5 LA6 LB0 LB1 LC1 LC2 LD LF2 I.
   assert (Hgf : forall f, getf s' f = getf s f) by (intros; unfold getf; now rewrite Ef).
   assert (Hw : forall f, woken s' f = woken s f) by (intros; unfold woken; now rewrite Hgf).
   assert (Hobo : forall l', l' <> l -> objs s' l' = objs s l').
@@ -415,4 +423,6 @@ Proof.
   - (* F4 *) intros t0 l0 f Hin. destruct (Hto t0) as (_ & _ & E & _). rewrite E in Hin.
     pose proof (iF4 I _ _ _ Hin) as H.
     destruct (Nat.eq_dec l0 l) as [->|Hne]; [now rewrite Hk|now rewrite Hlo].
+  - (* A6 *) intros t0 l0 Hl0. rewrite Enl in Hl0. destruct (Nat.eq_dec t0 t) as [->|Hnt]; auto.
+    destruct (Hto t0) as (_ & _ & _ & E). rewrite E by auto. apply (iA6 I); auto.
 Qed.
